@@ -97,7 +97,7 @@ func doHarvest() {
 	to := b
 	for i := 0; i < 6 && len(m) > 0; i++ {
 		hv.otherMsgs = append(hv.otherMsgs, m)
-		_, out, err := to.Deliver(nil, m, tBase)
+		_, out, err := deliverRecycled(to, m, tBase)
 		if err != nil {
 			break
 		}
@@ -195,7 +195,7 @@ func (w *c03world) deliverToH(label string, m []byte) string {
 				err = fmt.Errorf("PANIC: %v", r)
 			}
 		}()
-		isApp, out, err = w.h.Deliver(nil, m, tBase)
+		isApp, out, err = deliverRecycled(w.h, m, tBase)
 	}()
 	w.advanced = p2pke.VerifHandshakeIndex(w.h) != before
 	if err != nil {
@@ -268,7 +268,7 @@ func TestC03Forgery(t *testing.T) {
 				}
 				m := w.hOut[rapid.IntRange(0, len(w.hOut)-1).Draw(t, "hMsg")]
 				w.trace = append(w.trace, "relay H:"+msgName(m)+" to Vp")
-				isApp, out, err := w.vp.Deliver(nil, m, tBase)
+				isApp, out, err := deliverRecycled(w.vp, m, tBase)
 				if err == nil && !isApp {
 					w.addVp(out)
 				}
